@@ -11,7 +11,7 @@ RULE = ("corpus first: regression replays of the repaired defects F-C10a/b/c/d/e
         "PINGREQ with failing reply, on_connect publishing, on_disconnect reconnecting) x {direct-write, external loop} x {socket "
         "callbacks or not} x {MQTT 3.1.1, 5 (thorough: 3.1)} x callback API 1/2; seeded random lists of 2..20 operations with per-send "
         "outcomes (all, all-but-one-byte, would-block, zero, OSError), every broker input incl. protocol downgrade with failing "
-        "reconnect, server DISCONNECT in three encodings, recv error, PINGREQ/PINGRESP, and scripts of nested publish/subscribe/"
+        "reconnect, server DISCONNECT in three encodings, recv error, PINGREQ/PINGRESP, loop_read() calls handling 1..3 packets (readn), and scripts of nested publish/subscribe/"
         "disconnect/reconnect calls at all eight callback sites, 85% inside the hypotheses of the theorems. Every list runs on the "
         "real client and on the extracted model: events and (_state, _sock, _registered_write, len(_out_packet), _ping_t, protocol) "
         "are compared after every operation; the implementation trace is judged by the extracted checkers c10_*_ok. A rejected trace "
@@ -23,7 +23,7 @@ GENERATED_ITEMS = []
 ASSUMPTIONS = [
     "user callbacks do not raise (an OSError from a nested reconnect() is caught by the callback); on_pre_connect/on_message/on_subscribe not installed",
     "no background thread (_thread is None): loop_start()/threaded use is C07's",
-    "in the MODEL one broker packet per loop_read() (no QoS>0 messages stored, max_packets = 1); loop_read() calls that handle several packets - the socket replaced while handling the first, the end of the new connection read by the same call - are run on the implementation only and judged directly (multi_packet_oracle: exploration); inbound packets arrive whole (C05 owns fragmentation)",
+    "loop_read() handles one packet per call, or (operation readn / TLoopReadN, messages stored for the duration of the call so that max_packets = number of inputs) up to three, input k being what the socket current at the k-th _packet_read() delivers; multi_packet_oracle additionally runs such calls with really stored QoS 1 messages on the implementation alone; inbound packets arrive whole (C05 owns fragmentation)",
     "partial writes are of the shape all-but-the-last-byte (C06 owns general partial writes); keepalive timing is an input (C08 owns the clock)",
     "the result code returned by publish() is not compared when a callback called reconnect() during that publish() (per-message results: C01/C07)",
     "exclusions of the partial theorems, each an open finding: D on_socket_open does not call reconnect() (F-C10k); R on_socket_close/unregister_write call no disconnect()/reconnect(), register_write no reconnect(); "
